@@ -64,3 +64,76 @@ def run(fail):
             except Exception as e:
                 fail('exception-type', 'op: %s raised %s: %s' % (
                     ' '.join(desc), type(e).__name__, e))
+    constructor(fail)
+
+
+def mirror(fail, p, what, kinds):
+    """the per-variable lists mirror the constraint lists with multiplicity"""
+    def cnt(lst, c):
+        return sum(1 for d in lst if d is c)
+    bad = None
+    for key, lst in (('i', p._inequalities), ('e', p._equalities)):
+        for v, ent in p._variables.items():
+            for c in set(lst) | set(ent[key]):
+                want = cnt(lst, c) if any(v is u for u in c.variables()) \
+                    else 0
+                if cnt(ent[key], c) != want:
+                    bad = "_variables[%s]['%s'] holds a constraint %d times," \
+                        " the problem %d times" % (v.name, key,
+                                                   cnt(ent[key], c), want)
+    if bad:
+        for k in kinds:
+            fail(k, 'op.__init__: after %s %s' % (what, bad))
+
+
+def constructor(fail):
+    """op(objective, list of constraints): lists of up to 4 constraints over
+    the pool, repetitions allowed; afterwards one or two deletions"""
+    from cvxopt.modeling import variable, op
+    x, y, z, w = variable(1, 'x'), variable(2, 'y'), variable(1, 'z'), \
+        variable(1, 'w')
+    kinds = ('invariant-established', 'edit-effect',
+             'loop-invariant-preserved')
+    mk = [lambda: (x + y[0] <= 1), lambda: (y <= 3), lambda: (z == 1),
+          lambda: (x - z <= 0), lambda: (w + z == 2), lambda: (w == 0)]
+    for n in (0, 1, 2, 3, 4):
+        for idx in itertools.product(range(len(mk)), repeat=n):
+            if n == 4 and len(set(idx)) > 3:
+                continue
+            pool = [f() for f in mk]
+            given = [pool[i] for i in idx]
+            what = 'op(x, [%s])' % ', '.join('c%d' % i for i in idx)
+            try:
+                p = op(x, list(given))
+            except Exception as e:
+                fail('exception-type', 'op.__init__: %s raised %s' % (
+                    what, type(e).__name__))
+                continue
+            ine = [c for c in given if c.type() == '<']
+            eqs = [c for c in given if c.type() == '=']
+            same = lambda a, b: len(a) == len(b) and all(
+                u is v for u, v in zip(a, b))
+            if not same(p.inequalities(), ine) or not same(p.equalities(),
+                                                           eqs):
+                for k in kinds:
+                    fail(k, 'op.__init__: %s records %d inequalities and %d '
+                         'equalities, given %d and %d' % (
+                             what, len(p.inequalities()), len(
+                                 p.equalities()), len(ine), len(eqs)))
+                continue
+            check(lambda k_, m_: [fail(k2, 'op.__init__: ' + m_)
+                                  for k2 in kinds], p, what)
+            mirror(fail, p, what, kinds)
+            # deletions after construction must keep the books
+            for c in given[:2]:
+                try:
+                    p.delconstraint(c)
+                except Exception as e:
+                    for k in kinds:
+                        fail(k, 'op.__init__: %s then delconstraint raised '
+                             '%s' % (what, type(e).__name__))
+                    break
+                check(lambda k_, m_: [fail(k2, 'op.__init__: ' + m_)
+                                      for k2 in kinds], p,
+                      what + ' and a deletion')
+                mirror(fail, p, what + ' and a deletion', kinds)
